@@ -47,7 +47,8 @@ pub fn protected_symlinks() -> u32 {
     fs::read_to_string("/proc/sys/fs/protected_symlinks")
         .ok()
         .and_then(|s| s.trim().parse().ok())
-        .unwrap_or(0)
+        // what the library assumes when the sysctl cannot be read
+        .unwrap_or(1)
 }
 
 pub static PSL_AT_START: std::sync::atomic::AtomicU32 = std::sync::atomic::AtomicU32::new(0);
@@ -307,6 +308,7 @@ fn main() {
     match cmd.as_str() {
         "probe" => probe(&mut ctx),
         "c15" => c15::suite(&mut ctx),
+        "reopen" => procsuite::suite_reopen(&mut ctx, seed, args.iter().any(|a| a == "--thorough")),
         "proc-new" => procsuite::suite_new(&mut ctx),
         "proc-live" => procsuite::suite_live(&mut ctx, seed, n),
         "proc-overmount" => {
